@@ -53,6 +53,8 @@ float sym_f32(const char* name) {
 	memcpy(&f, &b, 4);
 	return f;
 }
+float sym_real(const char* name) { return sym_f32(name); }
+float sym_pi() { return 3.14159265358979f; }
 void sym_bytes(void* p, unsigned long n, const char* name) {
 	for (unsigned long i = 0; i < n; i++)
 		((unsigned char*) p)[i] = (unsigned char) next_val(name, 8);
@@ -115,6 +117,7 @@ void sym_set_truncation() {
 	if (g_trunc >= 0 && (size_t) g_trunc < g_in.size())
 		g_in.resize(g_trunc);
 }
+void sym_set_truncation_range(unsigned long, unsigned long) { sym_set_truncation(); }
 bool sym_heap_disjoint(void*, unsigned long, void*, unsigned long) { return true; }
 bool sym_deep_equal(void*, unsigned long, void*, unsigned long) { return true; }
 unsigned long sym_snapshot(void*, unsigned long) { return 0; }
